@@ -7,6 +7,7 @@ import (
 	"sort"
 	"strconv"
 	"strings"
+	"sync"
 	"testing"
 	"time"
 
@@ -14,6 +15,7 @@ import (
 	"oss.terrastruct.com/d2/d2renderers/d2fonts"
 	"oss.terrastruct.com/d2/d2renderers/d2svg"
 	"oss.terrastruct.com/d2/d2target"
+	"oss.terrastruct.com/d2/lib/font"
 	"oss.terrastruct.com/util-go/go2"
 	"pgregory.net/rapid"
 
@@ -52,10 +54,35 @@ var (
 	c33BoardRe     = regexp.MustCompile(`<g style="animation: ([A-Za-z0-9_-]+) ([0-9]+)ms infinite" id="b([0-9]+)">`)
 )
 
+// Wrap subsets and WOFF-encodes every font style on each call (~0.15 s with the bundled
+// 300 KB faces) although the stub boards contain no text. To keep a case cheap the diagram
+// uses a custom font family, registered once through the public d2fonts.AddFontFamily (what
+// the CLI's --font-regular does), whose faces are Source Sans Pro cut down to one glyph. The
+// keyframes do not depend on fonts. If the registration fails the bundled fonts are used.
+var (
+	c33FontOnce sync.Once
+	c33FontFam  *d2fonts.FontFamily
+)
+
+func c33Font() *d2fonts.FontFamily {
+	c33FontOnce.Do(func() {
+		c33FontFam = go2.Pointer(d2fonts.SourceSansPro)
+		defer func() { recover() }()
+		face := d2fonts.FontFaces.Get(d2fonts.SourceSansPro.Font(0, d2fonts.FONT_STYLE_REGULAR))
+		buf := make([]byte, len(face))
+		copy(buf, face)
+		tiny := font.UTF8CutFont(buf, "a")
+		if fam, err := d2fonts.AddFontFamily("verif-tiny", tiny, tiny, tiny, tiny); err == nil && fam != nil {
+			c33FontFam = fam
+		}
+	})
+	return c33FontFam
+}
+
 func c33Wrap(n, T int) ([]byte, error) {
 	diagram := d2target.NewDiagram()
-	diagram.FontFamily = go2.Pointer(d2fonts.SourceSansPro)
-	diagram.MonoFontFamily = go2.Pointer(d2fonts.SourceCodePro)
+	diagram.FontFamily = c33Font()
+	diagram.MonoFontFamily = c33Font()
 	boards := make([][]byte, n)
 	for i := range boards {
 		boards[i] = []byte(fmt.Sprintf(`<g id="b%d"><rect width="1" height="1"/></g>`, i))
@@ -177,7 +204,10 @@ func checkC33(h *hx.H, c c33Case) {
 				// Two keyframes that makeKeyframe computes 1 ms apart were printed as the same
 				// offset (%f keeps six decimals of a per cent): the 1 ms fade becomes a ramp from
 				// the previous keyframe. (Board 0 legitimately has "0%, 0%" twice.)
-				if ded[len(ded)-1].val != k.val && !(i == 0 && k.off == 0) {
+				// Two offsets 1 ms = 100/(n*T) per cent apart can only print identically
+				// when that is below the print resolution of 1e-6, i.e. n*T > 1e8 ms; a
+				// collision on a shorter cycle is not this finding.
+				if ded[len(ded)-1].val != k.val && !(i == 0 && k.off == 0) && total > 1e8 {
 					collapsed = true
 				}
 				ded[len(ded)-1] = k
